@@ -49,7 +49,11 @@ func (c *Client) Subscribe(ctx context.Context, params *SubscriptionParameters, 
 
 	// start the publish loop if it isn't already running
 	verifPoint("sub.resume.send", c, "from", "Subscribe")
-	c.resumech <- struct{}{}
+	select {
+	case c.resumech <- struct{}{}:
+	default:
+		// two resume signals are pending already, see resumeSubscriptions
+	}
 	verifPoint("sub.resume.sent", c, "from", "Subscribe")
 
 	sub := &Subscription{
@@ -352,22 +356,30 @@ func (c *Client) notifySubscription(ctx context.Context, sub *Subscription, noti
 
 // pauseSubscriptions suspends the publish loop by signalling the pausech.
 // It has no effect if the publish loop is already paused.
+//
+// The signal never blocks: pause signals are idempotent, so when the channel
+// is full the pending signals already do the job. A blocking send can
+// deadlock with the publish loop since forgetSubscription_NeedsSubMuxLock
+// signals while it holds the subMux, which the publish loop needs before it
+// gets back to draining the channel.
 func (c *Client) pauseSubscriptions(ctx context.Context) {
 	verifPoint("sub.pause.send", c)
 	select {
-	case <-ctx.Done():
 	case c.pausech <- struct{}{}:
+	default:
 	}
 	verifPoint("sub.pause.sent", c)
 }
 
 // resumeSubscriptions restarts the publish loop by signalling the resumech.
 // It has no effect if the publish loop is not paused.
+//
+// The signal never blocks, see pauseSubscriptions.
 func (c *Client) resumeSubscriptions(ctx context.Context) {
 	verifPoint("sub.resume.send", c, "from", "resumeSubscriptions")
 	select {
-	case <-ctx.Done():
 	case c.resumech <- struct{}{}:
+	default:
 	}
 	verifPoint("sub.resume.sent", c, "from", "resumeSubscriptions")
 }
